@@ -1,1 +1,2 @@
+pub mod mbc;
 pub mod sm83;
